@@ -87,11 +87,15 @@ func c16BuildTars2go(dir string) string {
 }
 
 // ---------- (a) the binary on the front-end inputs ----------
-func c16BinaryOnce(t2g, dir string, input []byte, capMs int) (status string, out string) {
+func c16BinaryOnce(t2g, dir string, input []byte, files map[string]B, capMs int) (status string, out string) {
 	os.RemoveAll(dir)
 	os.MkdirAll(dir, 0o755)
 	if err := os.WriteFile(filepath.Join(dir, "in.tars"), input, 0o644); err != nil {
 		fatal("c16: %v", err)
+	}
+	for n, b := range files { // the binary is given the bare name in.tars: included files are opened as ./name
+		os.MkdirAll(filepath.Dir(filepath.Join(dir, n)), 0o755)
+		os.WriteFile(filepath.Join(dir, n), b, 0o644)
 	}
 	o, code, to := c16Run(dir, capMs, nil, t2g, "-outdir", "gen", "in.tars")
 	switch {
@@ -109,6 +113,8 @@ func c16BinaryMonitor(a Args, res *Result, cases []c16Case, t2g string, base str
 	type r struct{ status, out string }
 	rs := make([]r, len(cases))
 	var wg sync.WaitGroup
+	var hmu sync.Mutex
+	confirmed := 0
 	ch := make(chan int)
 	for k := 0; k < 6; k++ {
 		wg.Add(1)
@@ -120,9 +126,17 @@ func c16BinaryMonitor(a Args, res *Result, cases []c16Case, t2g string, base str
 					rs[i] = r{"skipped", ""}
 					continue
 				}
-				st, o := c16BinaryOnce(t2g, dir, cases[i].Input, 5000)
-				for n := 0; n < 2 && st == "hang"; n++ { // a hang only counts when it reproduces with a longer cap
-					st, o = c16BinaryOnce(t2g, dir, cases[i].Input, 15000)
+				st, o := c16BinaryOnce(t2g, dir, cases[i].Input, cases[i].Files, 5000)
+				hmu.Lock()
+				skip := confirmed >= 2 // enough confirmed hangs: further ones are reported as observed
+				hmu.Unlock()
+				for n := 0; n < 2 && st == "hang" && !skip; n++ { // a hang only counts when it reproduces with a longer cap
+					st, o = c16BinaryOnce(t2g, dir, cases[i].Input, cases[i].Files, 15000)
+				}
+				if st == "hang" && !skip {
+					hmu.Lock()
+					confirmed++
+					hmu.Unlock()
 				}
 				rs[i] = r{st, o}
 			}
@@ -894,7 +908,7 @@ func c16BackEnd(a Args, rng *rand.Rand, res *Result, cases []c16Case, replay *c1
 	t1 := time.Now()
 	nbatch, nprog, per, calls := 3, 10, 5, 4
 	if a.Tier == "thorough" {
-		nbatch, nprog, per, calls = 60, 12, 12, 8
+		nbatch, nprog, per, calls = 40, 12, 12, 8
 	}
 	c16TV(a, res, t2g, filepath.Join(base, "tvgap"), []*c16Prog{c16GapProgram()}, per, calls, &off)
 	c16TV(a, res, t2g, filepath.Join(base, "tvcorner"), []*c16Prog{c16CornerProgram()}, 3*per, 3*calls, &off)
